@@ -611,11 +611,30 @@ pub fn gen_c03(out: &mut Out, rng: &mut Rng, thorough: bool) {
         let kind = if i % 2 == 0 { "tcp" } else { "rtu" };
         let hint = rng.below(5);
         let req = gen_request(rng, Some(hint));
-        let tail = *rng.pick(&["", ",e", ",xk1", ",p"]);
+        let tail = *rng.pick(&["", ",e", ",xk1", ",p", ",E"]);
         let r = format!("{evs}{tail}");
         let r = r.trim_start_matches(',');
         monitor_line(out, &format!("cli {kind} - | call {} r={r} | call RSI r={r}", request(&req)));
         monitor_line(out, &format!("srv {kind} svc=R=RC:1,X=02,D,R=RSI:01:1:AA r={r}"));
+    }
+    // a validly framed but damaged reply / request and then the peer closes for good (every
+    // further read reports the end of the stream): the call / the connection task must end
+    for i in 0..(if thorough { 6_000 } else { 600 }) {
+        let kind = if i % 2 == 0 { "tcp" } else { "rtu" };
+        let hint = rng.below(5);
+        let req = gen_request(rng, Some(hint));
+        let unit = rng.u8();
+        let good = spec::response_bytes(&answer_for(rng, &req)).unwrap_or_else(|| vec![3, 2, 0, 1]);
+        let bad = super::universal::damaged_pdu(rng, &good);
+        let f = if kind == "tcp" { spec::mbap(0, unit, &bad) } else { spec::rtu_frame(unit, &bad) };
+        let parts = rng.composition(f.len());
+        let evs = chunks_tok(&chunk(&f, &parts));
+        monitor_line(out, &format!("cli {kind} {} | call {} r={evs},E | call RSI", hex8(unit), request(&req)));
+        let goodq = spec::request_bytes(&req).unwrap_or_else(|| vec![3, 0, 0, 0, 1]);
+        let badq = super::universal::damaged_pdu(rng, &goodq);
+        let f = if kind == "tcp" { spec::mbap(rng.u16(), unit, &badq) } else { spec::rtu_frame(unit, &badq) };
+        let parts = rng.composition(f.len());
+        monitor_line(out, &format!("srv {kind} svc=R=RC:1,X=02 r={},E", chunks_tok(&chunk(&f, &parts))));
     }
 }
 
